@@ -15,10 +15,10 @@ CLAIMED = {
  "C04": dict(engine="store", technique="TLC model checking of Store.tla (M_C04_*, all kinds incl. the slotted belt store with its admission spacing) + TLC trace validation (T_C04_Put/T_C04_Get at every end of instant) on graph walks and random histories of the real classes",
    text="No lost wake-up: at every state of the model in which nothing is due, and at every recorded end-of-instant of the real object (after every call when no kernel event with a listener is left), no head-of-line request is pending while it could be served.",
    ref="5 C04"),
- "C05": dict(engine="store", technique="TLC model checking (M_C05_Queues, M_C05_HeadOnly) + TLC trace validation of the action property T_C05_GrantOrder on real traces",
+ "C05": dict(engine="store", technique="TLC model checking (M_C05_Queues, M_C05_HeadOnly; PrioReqStore.tla) + TLC trace validation of the action property T_C05_GrantOrder on real traces (graph walks, random histories with priorities on every store class incl. both belt stores, PriorityReqStore histories)",
    text="Service order by (priority, arrival): queue order and head-only service are invariants of the model; on every recorded step of the real classes no request is granted while an older or more urgent one of the same kind keeps waiting.",
    ref="5 C05"),
- "C06": dict(engine="store", technique="TLC model checking (M_C06_Grant, M_C06_CancelLocal) + TLC trace validation with nondeterministic binding inference (Trace_StoreBind.tla, Allowed sets per discipline)",
+ "C06": dict(engine="store", technique="TLC model checking (M_C06_Grant, M_C06_CancelLocal) + TLC trace validation with nondeterministic binding inference (Trace_StoreBind.tla, Allowed sets per discipline) on graph walks, random histories and systematic cancellation scenarios of every store kind",
    text="FIFO/LIFO/filter discipline including cancellation: at design level the bound item of every grant lies in the Allowed set; for real traces TLC searches for a binding of granted retrievals to items that respects Allowed at every grant and explains every returned item; a trace with no such explanation is a violation.",
    ref="5 C06, 4.3"),
  "C07": dict(engine="store", technique="TLC model checking (M_C07: every ill-formed call at every state is a RuntimeError stutter) + the same alphabet executed at every reachable graph state on the real classes + TLC trace validation (T_C07_Reject/Accept)",
@@ -30,7 +30,7 @@ CLAIMED = {
  "C14": dict(engine="store", technique="TLC model checking of the fleet kind (M_C14_*) + TLC trace validation against the reference activation schedule (T_C14_Avail, T_C14_WaitBound, T_C14_Order)",
    text="Fleet batches: every item becomes available exactly one round trip after the first activation (timer period or capacity trigger) at or after its loading, in loading order, never later than delay + round trip; judged on every recorded event of Fleet edges / FleetStore incl. zero transit, loads during trips and in the departure instant.",
    ref="5 C14"),
- "C03": dict(engine="factory", technique="TLC model checking of Factory.tla (all same-instant interleavings; F_C03_OnePlace/Counts/Quiescent) + TLC trace validation of recorded real factory runs (Trace_Factory.tla, T_C03_*)",
+ "C03": dict(engine="factory", technique="TLC model checking of Factory.tla (all same-instant interleavings; F_C03_OnePlace/Counts/Quiescent) + the real runs compared with the model's outcome sets at every end of instant + TLC trace validation of recorded real factory runs (Trace_Factory.tla, T_C03_*)",
    text="Item conservation across the factory: in the design model every created item has exactly one place in every reachable state of every enumerated configuration under every same-instant ordering; for the implementation, every recorded run of a real factory (systematic families + seeded random configurations incl. fan-in/out, fleets, LIFO, combiner/splitter, conveyors) is folded into a ledger by TLC and compared at every end of instant with the independently observed contents of every edge, pallet and node reference and with the statistics counters.",
    ref="5 C03, 3.5, 4.4"),
  "C08": dict(engine="factory", technique="TLC model checking of Factory.tla (F_C08_Cap) + TLC trace validation (T_C08_Cap, T_C08_Offer, T_C08_DrawOnce, T_C08_DrawnAtPull, T_C08_OfferedWhenDue, T_C08_HeldOnlyIfFull) on recorded real runs with harness-supplied, logged delay callables",
@@ -42,7 +42,7 @@ CLAIMED = {
  "C10": dict(engine="factory", technique="TLC model checking of Factory.tla over ALL same-instant interleavings (F_C10_*, F_C04_EOI) + TLC trace validation at every recorded end of instant (T_C10_GrantedUsed, T_C10_NoOrphan, T_C10_ChooseOne, T_C10_TakeInput, T_C10_PushOutput)",
    text="Nothing stranded: the schedule quantifier is covered at design level by exploring every ordering of same-instant actions; on the implementation every end-of-instant snapshot (live tokens with trigger flags, edge contents, ledger of held units) is judged: no granted-unused reservation, no orphan token of a process that moved on or ended, no free worker next to an available unreserved item, no finished item next to free room.",
    ref="5 C10, 3.1"),
- "C15": dict(engine="factory", technique="TLC trace validation of recorded real runs (T_C15_FirstAvail on the trigger flags of the whole batch at commit, T_C15_InPolicy / T_C15_OutPolicy / T_C15_PutWhereOffered per routed item, T_C15_Recorded against stats); Factory.tla models FIRST_AVAILABLE / ROUND_ROBIN / constant selection",
+ "C15": dict(engine="factory", technique="TLC trace validation of recorded real runs (T_C15_FirstAvail on the trigger flags of the whole batch at commit, T_C15_InPolicy / T_C15_OutPolicy / T_C15_PutWhereOffered per routed item, T_C15_Recorded against stats); Factory.tla models FIRST_AVAILABLE / ROUND_ROBIN / constant / scripted (callable) selection and the real runs must agree with it at every end of instant",
    text="ROUND_ROBIN, constant, scripted callable (consulted once per item, logged by the harness) and FIRST_AVAILABLE (lowest-index triggered token of the batch at the instant of commit) are checked per routed item on every recorded run; the recorded selection history is compared with the routing in the ledger.",
    ref="5 C15"),
  "C16": dict(engine="factory", technique="TLC trace validation (T_C16_Recipe, T_C16_SplitterEmits, T_C16_SplitterDone) on recorded runs of real combiner/splitter lines",
